@@ -25,7 +25,7 @@ def one(sid):
 
 
 sids = [sid for sid in sorted(os.listdir(os.path.join(ROOT, "seeded")))
-        if os.path.isdir(os.path.join(ROOT, "seeded", sid))
+        if os.path.isfile(os.path.join(ROOT, "seeded", sid, "meta.json"))
         and (not only or sid in only or sid.split("-")[0] in only or any(o.startswith("-") and o in sid for o in only))]
 with ThreadPoolExecutor(JOBS) as ex:
     for sid, r in ex.map(one, sids):
